@@ -22,6 +22,8 @@ def one(job):
         r = subprocess.run([os.path.join(ROOT, "check"), pid, "--tier", "quick"], capture_output=True, text=True, env=env)
         detail = [l for l in r.stdout.splitlines() if l.startswith("detail:")]
         status = {0: "MISSED", 1: "caught", 2: "HARNESS-ERROR"}.get(r.returncode, f"rc={r.returncode}")
+        if r.returncode == 2:
+            open(os.path.join("/tmp", "selftest-harness-" + os.path.basename(os.path.dirname(patch)) + "-" + os.path.basename(patch) + ".log"), "w").write(r.stdout + "\n=== stderr ===\n" + r.stderr)
         return (pid, patch, status, (detail[0][:160] if detail else r.stdout.strip().splitlines()[-1][:160] if r.stdout.strip() else ""))
     finally:
         shutil.rmtree(wt, ignore_errors=True)
